@@ -8,6 +8,7 @@
    from the headers.  `hall s` = all items stored in all generations; `spec_step` = the abstract finite map. *)
 From Coq Require Import ZArith List Permutation.
 From C01 Require Import HashModel HashSpec HashProofs HashInst HashInstProofs BucketFind.
+From C01 Require OpenN1Ops Gen_OpenN1_ops.
 From C01 Require IterMachine KindFacts Gen_UnlimP Gen_LimP1 Gen_LimP1t Gen_LimP1f Gen_Lim4 Gen_LimP Open8Match.
 From C01 Require Gen_LimP4 Gen_Open2N2 Gen_Open2N2w Gen_OpenN1.
 Import ListNotations.
@@ -377,3 +378,51 @@ Theorem C01_limp_wasfull_rule :
   (forall c, 1 <= c <= 8 -> (Gen_LimP.pvGetMemPoolIndexOf c = Gen_LimP.pvGetMemPoolIndexOf Gen_LimP.maxCount <-> 7 <= c)).
 Proof. exact KindFacts.limp_wasfull_rule. Qed.
 Print Assumptions C01_limp_wasfull_rule.
+
+(* ---------- model growth: the REAL byte operations of BucketOpenN1 / BucketOpen8 (= OpenN1<7,false>) ----------
+   regenerated AddCrt / Remove / Clear / IsFull / pvGetCount (symbolic maxCount in 1..7, both `reverse` layouts) refine the
+   list-level bucket of BucketFind.v: `repr d tags` = the occupied slots hold `tags` in Bounds order, unused slots hold bytes >= 248,
+   the state byte (shared with the last slot) holds 248 + count.  FRAME: none of them touches the max-probe byte mData[maxCount],
+   and anything that writes only that byte (UpdateMaxProbe) keeps `repr`. *)
+Theorem C01_openn1_count_isfull :
+  forall maxCount reverse, 1 <= maxCount <= 7 -> forall d tags, OpenN1Ops.repr maxCount reverse d tags ->
+    Gen_OpenN1_ops.pvGetCount reverse maxCount d = Z.of_nat (length tags) /\
+    (Gen_OpenN1_ops.IsFull reverse maxCount d = true <-> Z.of_nat (length tags) = maxCount).
+Proof. exact OpenN1Ops.n1_count_isfull. Qed.
+Print Assumptions C01_openn1_count_isfull.
+
+Theorem C01_openn1_clear :
+  forall maxCount reverse, 1 <= maxCount <= 7 -> forall d,
+    OpenN1Ops.repr maxCount reverse (Gen_OpenN1_ops.pvSetEmpty maxCount d) [] /\ Gen_OpenN1_ops.pvSetEmpty maxCount d maxCount = 0.
+Proof. exact OpenN1Ops.n1_clear. Qed.
+Print Assumptions C01_openn1_clear.
+
+Theorem C01_openn1_addcrt :
+  forall maxCount reverse, 1 <= maxCount <= 7 -> forall d tags hc ni,
+    OpenN1Ops.repr maxCount reverse d tags -> Z.of_nat (length tags) < maxCount -> 0 <= hc < 2 ^ 64 ->
+    exists d', Gen_OpenN1_ops.AddCrt reverse maxCount d hc ni = GenPrelude.Ok (tt, d') /\
+      OpenN1Ops.repr maxCount reverse d' (tags ++ [Gen_OpenN1_ops.ptCalcShortHash hc]) /\ d' maxCount = d maxCount.
+Proof. exact OpenN1Ops.n1_addcrt. Qed.
+Print Assumptions C01_openn1_addcrt.
+
+Theorem C01_openn1_remove :
+  forall maxCount reverse, 1 <= maxCount <= 7 -> forall d tags idx,
+    OpenN1Ops.repr maxCount reverse d tags -> 0 <= idx < Z.of_nat (length tags) ->
+    exists d', Gen_OpenN1_ops.Remove reverse maxCount d idx = GenPrelude.Ok (tt, d') /\
+      OpenN1Ops.repr maxCount reverse d' (gbremove (Z.to_nat idx) tags) /\ d' maxCount = d maxCount.
+Proof. exact OpenN1Ops.n1_remove. Qed.
+Print Assumptions C01_openn1_remove.
+
+Theorem C01_openn1_bound_frame :
+  forall maxCount reverse, 1 <= maxCount <= 7 -> forall d d' tags,
+    OpenN1Ops.repr maxCount reverse d tags -> (forall i, i <> maxCount -> d' i = d i) -> OpenN1Ops.repr maxCount reverse d' tags.
+Proof. exact OpenN1Ops.n1_bound_frame. Qed.
+Print Assumptions C01_openn1_bound_frame.
+
+Theorem C01_openn1_slots :
+  forall maxCount reverse d tags, OpenN1Ops.repr maxCount reverse d tags ->
+    forall i, 0 <= i < maxCount ->
+      (i < Z.of_nat (length tags) -> d (OpenN1Ops.slot maxCount reverse i) = nth (Z.to_nat i) tags 0) /\
+      (Z.of_nat (length tags) <= i -> 248 <= d (OpenN1Ops.slot maxCount reverse i)).
+Proof. exact OpenN1Ops.n1_slots. Qed.
+Print Assumptions C01_openn1_slots.
